@@ -37,6 +37,12 @@ def run(out, unit, tier, seed, workdir, overlay):
         return
     binp = os.path.join(workdir, "vt_sm4.test")
     p = subprocess.run(["go", "test", "-c", "-vet=off", "-tags", "verif", "-overlay", overlay, "-o", binp, "./sm4/"], cwd=REPO, env=go_env(), capture_output=True, text=True)
+    if p.returncode != 0:
+        # declarations of sealAsm/openAsm/copyAsm/needExpand differ from the ones called directly: stub the adapters out
+        p2 = subprocess.run(["go", "test", "-c", "-vet=off", "-tags", "verif,verifnoasm", "-overlay", overlay, "-o", binp, "./sm4/"], cwd=REPO, env=go_env(), capture_output=True, text=True)
+        if p2.returncode == 0:
+            out.notes.setdefault("degraded_builds", []).append("engine_vtrace: test binary built with tag verifnoasm (direct calls of sealAsm/openAsm/copyAsm/needExpand unavailable on this tree)")
+            p = p2
     if p.returncode != 0 or not os.path.exists(binp):
         out.inconclusive.append("vtrace: build failed: " + (p.stdout + p.stderr)[-800:])
         return
@@ -131,6 +137,10 @@ def run(out, unit, tier, seed, workdir, overlay):
         tot += len(e["all"])
         hit += len(e["hit"])
     out.notes["static_instruction_coverage"] = cov_note
+    if prop == "C09" and not unit.get("routines"):
+        for need in ("sealAsm", "openAsm"):
+            if not any(need in r and c["executed"] > 0 for r, c in cov_note.items()):
+                out.inconclusive.append("vtrace: %s was not traced (its Go declaration is not the one the workload calls directly, or the workload did not reach it)" % need)
     out.counters["static_pcs_total_all_routines"] = tot
     out.counters["static_pcs_executed_all_routines"] = hit
     out.counters.pop("static_pcs_covered", None)
